@@ -1262,7 +1262,7 @@ def run_prop(out: Outcome, level_when_proved: str = "proof") -> None:
         return
     plan = PLANS[prop]
     nshards = NCPU
-    per = (200 if thorough else 25) if prop != "C08" else (60 if thorough else 8)
+    per = (2000 if thorough else 25) if prop != "C08" else (300 if thorough else 8)
     if prop == "C06":
         per *= 3
     jobs = [(prop, s, per, out.tier, seed(), (s, nshards) if (plan["bundled"] or thorough) else None) for s in range(nshards)]
